@@ -418,6 +418,19 @@ def slow_peer(driver, res, r, tier):
                         break
                     p.step({'k': 'advance', 'dt': min(times) - w.now})
                 p.step({'k': 'start'})
+                # ... and the restarted peering meets a failure: the attempt is refused (first variant) or the session it brings
+                # up is lost (second) - automatic recovery must be in force again
+                pend = [c.id for c in p.sim.world.connectors if c.state == 'connecting']
+                if pend:
+                    if stop_first:
+                        p.step({'k': 'connfail', 'c': pend[-1], 'why': 'refused'})
+                    else:
+                        p.step({'k': 'connok', 'c': pend[-1]})
+                        for lab in ('open_ok', 'keepalive'):
+                            if p.sim.enabled({'k': 'chunk', 'c': pend[-1]}):
+                                p.step({'k': 'chunk', 'c': pend[-1], 'hex': pool[lab].hex()})
+                        if p.sim.enabled({'k': 'lost', 'c': pend[-1]}):
+                            p.step({'k': 'lost', 'c': pend[-1]})
                 res.stats.case(('slow-peer', jdump(conf), nretry, stop_first), sample=None)
                 res.stats.hit('slow_peer')
 
@@ -429,11 +442,11 @@ def two_sessions(driver, res, r, tier):
     for conf in CONFIGS:
         full = dict(S.DEFAULT_CFG); full.update(conf)
         pool = dict(SG.message_pool(full['remote_as']))
-        opens = ['open_ok', 'open_nocaps', 'open_hold3', 'open_hold0']
-        probes = ['update_aspath4', 'update_aspath2', 'update_as4path_first', 'update_ok']
+        opens = ['open_ok', 'open_nocaps', 'open_hold3', 'open_hold0', 'open_addpath_ipv4']
+        probes = ['update_aspath4', 'update_aspath2', 'update_as4path_first', 'update_aggregator4', 'update_aggregator2', 'update_ok']
         pairs = [(a, b) for a in opens for b in opens if a != b]
         if tier == 'quick':
-            pairs = [('open_ok', 'open_nocaps'), ('open_nocaps', 'open_ok'), ('open_ok', 'open_hold3')] + r.sample(pairs, 2)
+            pairs = [('open_ok', 'open_nocaps'), ('open_nocaps', 'open_ok'), ('open_ok', 'open_hold3'), ('open_ok', 'open_addpath_ipv4')] + r.sample(pairs, 2)
         for a, b in pairs:
             p = Pair(conf, driver, res)
             p.step({'k': 'boot'})
